@@ -908,14 +908,22 @@ structure State where
 
 def init : State := {}
 
-/-- `parse t=<code points> [mod=<code points>] [pinned=1] [fuel=<n>]` -/
+/-- `parse t=<code points> [mod=<code points>] [pinned=1] [fuel=<n>] [us= ua= ud= un=<code points>]` -/
 def handle (s : State) (ws : List String) : State × String :=
   match ws with
   | "parse" :: rest =>
     let fs := Wire.fields rest
     match parseCps (Wire.fieldD fs "t"), parseCps (Wire.fieldD fs "mod") with
     | some t, some md =>
-      let cfg := if Wire.fieldD fs "pinned" == "1" then pinnedCfg else asciiCfg
+      let base := if Wire.fieldD fs "pinned" == "1" then pinnedCfg else asciiCfg
+      -- non-ASCII characters of the text with their Python classes (str.isspace / isalpha / isdigit / isnumeric)
+      let extra (k : String) : List Char := (parseCps (Wire.fieldD fs k)).getD []
+      let us := extra "us"; let ua := extra "ua"; let ud := extra "ud"; let un := extra "un"
+      let cfg : Cfg := { base with
+        isSpace := fun c => base.isSpace c || us.contains c
+        isAlpha := fun c => base.isAlpha c || ua.contains c
+        isDigit := fun c => base.isDigit c || ud.contains c
+        isNumeric := fun c => base.isNumeric c || un.contains c }
       let m : PState := { mod := if (Wire.field fs "mod").isSome then some md else none }
       let fuel := (Wire.natField fs "fuel").getD (fuelFor t)
       (s, showRes (parseWith cfg fuel m t))
